@@ -215,12 +215,12 @@ Proof.
   rewrite E. eauto.
 Qed.
 
-(* nor do the real draws, for finite lo < hi of finite width: uniform_real_distribution stays in [lo, hi] *)
+(* nor do the real draws, for every finite lo < hi: between<double> stays in [lo, hi] on both of its branches *)
 Lemma e_real_never_refuses : forall lo hi st, wf st ->
-  F64.is_finite lo = true -> F64.is_finite hi = true -> F64.ltb lo hi = true -> F64.is_finite (F64.sub hi lo) = true ->
+  F64.is_finite lo = true -> F64.is_finite hi = true -> F64.ltb lo hi = true ->
   exists v st' tr, e_real lo hi st = Some (v, st', tr) /\ F64.leb lo v = true /\ F64.leb v hi = true /\ F64.is_finite v = true.
 Proof.
-  intros lo hi st Hw Flo Fhi Hlt Fd. unfold e_real.
-  destruct (Rng.DistRealProofs.between_real_contract lo hi st Hw Flo Fhi Hlt Fd) as (A & B & C).
+  intros lo hi st Hw Flo Fhi Hlt. unfold e_real.
+  destruct (Rng.DistRealProofs.between_real_contract_all lo hi st Hw Flo Fhi Hlt) as (A & B & C).
   destruct (between_real lo hi st) as [v st']. cbn [fst] in *. rewrite A, B. cbn [andb]. eauto 8.
 Qed.
